@@ -1,4 +1,5 @@
 import FluentVerif.Tie.Sync
+import FluentVerif.Conc.Sections
 /-! # C08 / C14 / C16 / C17 — the schedule halves, over the regenerated control-flow graphs
 
 `check_sound` and `critical_section_exclusive` (proved once, for all programs) are instantiated
@@ -32,6 +33,34 @@ theorem C08_sections_exclusive (sched : List (Tid × Nat)) (t1 t2 : Tid) (hne : 
     (a1 : client.annot[pc1]? = some ls1) (a2 : client.annot[pc2]? = some ls2)
     (e1 : (1, Mode.ex) ∈ ls1) (e2 : (1, m) ∈ ls2) : False :=
   critical_section_exclusive client client_lockset sched t1 t2 hne pc1 pc2 ls1 ls2 1 m h1 h2 a1 a2 e1 e2
+
+/-- **C08, as a statement about the sequence of events**: take any schedule `A` after which goroutine `t`
+is inside a send section (it holds the send mutex exclusively and, like every sender, the session lock
+shared), and any continuation `B` during which `t` does not leave the section (it executes neither the
+mutex unlock nor the session-lock release).  Then every use of the connection that happens during `B`, by
+any of any number of goroutines, is `t`'s own: nothing is written or read on the wire between the first
+and the last byte of `t`'s message and its ack exchange.  With C09 (the section writes the complete
+encoding) the wire is a concatenation of whole messages. -/
+theorem C08_send_section_uninterrupted (A B : List (Tid × Nat)) (t : Tid)
+    (h1 : (run client init A).locks.exH 1 = some t) (h0 : t ∈ (run client init A).locks.shH 0)
+    (hno : ∀ e ∈ log client (run client init A) B, e.1 = t →
+      opAt client e.2 ≠ some (.unlock 1) ∧ opAt client e.2 ≠ some (.runlock 0))
+    (e : Tid × Nat) (he : e ∈ log client (run client init A) B) (w : Bool)
+    (ha : accessOf client e.2 = some (2, w)) : e.1 = t :=
+  section_uninterrupted client client_lockset 2 1 0 C08_wire_under_mutex A B t h1 h0 hno e he w ha
+
+/-- every frame-writing call of `ws.connection` holds `writeLock` exclusively -/
+theorem C16_writes_under_writeLock : allUnder wsConn 5 5 5 = true := by decide
+
+/-- **C16, as a statement about the sequence of events**: while goroutine `t` holds `writeLock` (from any
+reachable state, until `t` itself unlocks it), every frame-writing call on the underlying connection that
+happens — data frame or close frame, by any goroutine — is `t`'s: frames are written one at a time. -/
+theorem C16_write_section_uninterrupted (A B : List (Tid × Nat)) (t : Tid)
+    (h1 : (run wsConn init A).locks.exH 5 = some t)
+    (hno : ∀ e ∈ log wsConn (run wsConn init A) B, e.1 = t → opAt wsConn e.2 ≠ some (.unlock 5))
+    (e : Tid × Nat) (he : e ∈ log wsConn (run wsConn init A) B) (w : Bool)
+    (ha : accessOf wsConn e.2 = some (5, w)) : e.1 = t :=
+  section_uninterrupted1 wsConn wsConn_lockset 5 5 C16_writes_under_writeLock A B t h1 hno e he w ha
 
 /-- **C17 (race freedom)** for `WSClient`: `session` and `err` -/
 theorem C17_race_free (sched : List (Tid × Nat)) (t1 t2 : Tid) (hne : t1 ≠ t2) (pc1 pc2 : Nat) (v : Var) (w2 : Bool)
